@@ -91,6 +91,24 @@ func (l Level) MarshalValue() data.Value {
 	return data.Null{}
 }
 
+// localRowA and localRowB return values of two different struct types that are both called "row"
+// (types declared inside functions: the same package and name, other fields).
+func localRowA(s string, n int) interface{} {
+	type row struct {
+		Name string
+		Qty  int
+	}
+	return row{s, n}
+}
+
+func localRowB(s string, n int) interface{} {
+	type row struct {
+		Title string
+		Count int
+	}
+	return &row{s, n}
+}
+
 // Bag is a marshaler of slice kind whose Soy form is a map.
 type Bag []string
 
@@ -158,6 +176,12 @@ func key(name string, lower bool) string {
 		return "pM"
 	case "Tags":
 		return "tags"
+	case "Title":
+		return "title"
+	case "Count":
+		return "count"
+	case "Qty":
+		return "qty"
 	case "K":
 		return "k"
 	}
@@ -316,6 +340,10 @@ func build(r Recipe, c *C20Case) (interface{}, ref.Value) {
 			return &x, e
 		}
 		return &v, e // *interface{}
+	case "local_a":
+		return localRowA(r.S, int(r.I%1000)), ref.M(map[string]ref.Value{key("Name", lower): ref.S(r.S), key("Qty", lower): ref.I(int64(int(r.I % 1000)))})
+	case "local_b":
+		return localRowB(r.S, int(r.I%1000)), ref.M(map[string]ref.Value{key("Title", lower): ref.S(r.S), key("Count", lower): ref.I(int64(int(r.I % 1000)))})
 	case "bag", "ptr_bag":
 		bag := Bag(r.Keys)
 		first := ""
@@ -450,7 +478,7 @@ var (
 	c20Ints   = []int64{0, 1, -1, 2, 7, -128, 127, 255, 256, 65535, 1 << 31, -(1 << 31), 1<<53 - 1, 1 << 53, 1<<53 + 1, math.MaxInt64, math.MinInt64}
 	c20Floats = []string{"0", "-0", "0.5", "-1.5", "1", "2", "1e21", "1e-7", "3.25", "NaN", "+Inf", "-Inf", "9007199254740992", "9007199254740993", "1.7976931348623157e308", "5e-324", "255", "0.1"}
 	c20Strs   = []string{"", "a", "0", "false", "null", "é", "<b>", "日本", "a b", "x\x00y", "\xff"}
-	c20Leaf   = []string{"bag", "ptr_bag", "nil", "bool", "mybool", "int", "int8", "int16", "int32", "int64", "myint", "uint", "uint8", "uint16", "uint32", "uint64",
+	c20Leaf   = []string{"local_a", "local_b", "bag", "ptr_bag", "nil", "bool", "mybool", "int", "int8", "int16", "int32", "int64", "myint", "uint", "uint8", "uint16", "uint32", "uint64",
 		"float64", "float32", "myfloat", "string", "mystr", "time", "slice_nil", "map_nil", "nilptr_struct", "nilptr_int", "nilptr_ptr", "nilptr_marsh",
 		"s1", "s3", "marsh", "ptr_marsh", "slice_int", "slice_str", "map_int", "level", "label", "slice_level", "slice_label", "slice_marsh", "map_level", "struct_level"}
 	c20Node = []string{"slice_any", "map_any", "map_named", "ptr", "s2", "value", "slice_ptr"}
